@@ -121,6 +121,9 @@ def work_chunk(args):
         out.append(rec)
         try:
             real = c10_check.real_side(case)
+        except c10_check.TooLarge:
+            rec['skipped'] = 'too-large'
+            continue
         except Exception as e:  # noqa: BLE001
             try:
                 empty = c10_model.is_empty_model(case)
@@ -131,10 +134,14 @@ def work_chunk(args):
             else:
                 rec['fails'].append(('property', f'build.error.{type(e).__name__}', traceback.format_exc()[-1200:]))
             continue
+        if use_model:
+            try:
+                reqs.append(c10_check.lean_request(case, real))
+            except Exception:  # noqa: BLE001
+                rec['fails'].append(('correspondence', 'harness.request-exception', traceback.format_exc()[-1200:]))
+                continue
         reals.append(real)
         idx.append(n)
-        if use_model:
-            reqs.append(c10_check.lean_request(case, real))
     louts = [None] * len(reals)
     if use_model and reqs:
         _mem_limit(False)   # the Lean runtime reserves a large address space
@@ -180,8 +187,8 @@ def run_cases(ctx, cases, use_model=True, res=None):
             if rec['skipped']:
                 res.count('skipped=' + rec['skipped'])
                 continue
-            res.note_case(case, nontrivial(case) if case.get('kind') == 'coupling' else True)
-            for h in (case_hist(case) if case.get('kind') == 'coupling' else ['zoo=' + case.get('model', '?')]):
+            res.note_case(case, nontrivial(case) if case.get('kind', 'coupling') == 'coupling' else True)
+            for h in (case_hist(case) if case.get('kind', 'coupling') == 'coupling' else ['zoo=' + case.get('model', '?')]):
                 res.count(h)
             for k, v in rec['facts'].items():
                 if k.startswith('rep.') or k in ('lean_dense', 'bonds', 'herm_formal', 'herm_oracle'):
